@@ -111,6 +111,19 @@ def fail_task(coro: Any) -> None:
         pass
 
 
+class OpenCrashed(Exception):
+    """stands for whatever else the open can raise (PacketDecodeError, an exception of the accept handler)"""
+
+
+def crash_task(coro: Any) -> None:
+    """the open raises something that is not ChannelOpenError; the exception ends the task (the connection's
+    `_reap_task` would see it), which is not an output of the relay"""
+    try:
+        coro.throw(OpenCrashed('open failed in some other way'))
+    except (StopIteration, OpenCrashed):
+        pass
+
+
 # ---------------------------------------------------------------------------
 # SOCKS: real object fed chunk by chunk
 
@@ -316,7 +329,7 @@ class RelayImpl:
         return self.phase == 'linked' and self.call.chan is not None and not self.call.chan.closed
 
     def legal(self, tok: str) -> bool:
-        if tok in ('ok', 'fail'):
+        if tok in ('ok', 'fail', 'crash'):
             return self.phase == 'opening'
         x = tok[1]
         if x == 'c' and self.phase != 'linked':
@@ -328,7 +341,7 @@ class RelayImpl:
         return self.tr_up(x)
 
     def exists(self, tok: str) -> bool:
-        return tok in ('ok', 'fail') or tok[1] == 's' or self.phase == 'linked'
+        return tok in ('ok', 'fail', 'crash') or tok[1] == 's' or self.phase == 'linked'
 
     def apply(self, tok: str) -> str:
         mark = len(self.log)
@@ -342,6 +355,10 @@ class RelayImpl:
                 if self.phase == 'opening':
                     self.phase = 'failed'
                     fail_task(self.conn.tasks[0])
+            elif tok == 'crash':
+                if self.phase == 'opening':
+                    self.phase = 'failed'
+                    crash_task(self.conn.tasks[0])
             else:
                 x = tok[1]
                 obj = self.s if x == 's' else self.call.session
@@ -391,10 +408,12 @@ def gen_relay_seq(rng: Any, impl: RelayImpl, n: int, legal_only: bool) -> Tuple[
                 t = 'p' + x
             elif k < 0.78:
                 t = 'r' + x
-            elif k < 0.93:
+            elif k < 0.91:
                 t = 'ok'
-            else:
+            elif k < 0.96:
                 t = 'fail'
+            else:
+                t = 'crash'
             if not impl.exists(t):
                 continue
             if legal_only and not impl.legal(t):
@@ -418,6 +437,10 @@ RELAY_CORPUS = [
     ['ok', 'ps', 'rs', 'pc', 'rc', 'lc'],
     ['es', 'ls', 'ok', 'ec'],
     ['ok', 'dsaa', 'ls', 'lc'],
+    ['dsaa', 'crash', 'ls'],                            # the open raises something other than ChannelOpenError
+    ['crash'],
+    ['es', 'crash', 'dsbb'],
+    ['ls', 'crash'],
 ]
 
 
@@ -427,3 +450,84 @@ def run_relay_tokens(toks: List[str], path_variant: bool = False) -> List[str]:
     for t in toks:
         out.append(impl.apply(t) if impl.exists(t) else '')
     return out
+
+
+# ---------------------------------------------------------------------------
+# destination side: the real `SSHConnection.forward_connection` / `forward_unix_connection` on a stand-in connection
+
+
+class _Quiet:
+    def info(self, *_a: Any, **_k: Any) -> None:
+        pass
+
+    debug1 = debug2 = info
+
+
+class _FakeLoop:
+    """`create_connection` / `create_unix_connection` that succeed at once with a recording transport"""
+
+    def __init__(self, log: List[str]) -> None:
+        self.log = log
+        self.transport: Optional[FakeTransport] = None
+        self.proto: Any = None
+
+    async def create_connection(self, factory: Any, *_a: Any, **_k: Any) -> Any:
+        self.proto = factory()
+        self.transport = FakeTransport('s', self.log)
+        self.proto.connection_made(self.transport)
+        return self.transport, self.proto
+
+    create_unix_connection = create_connection
+
+
+class _FakeSSHConn:
+    """what `forward_connection` touches of its connection: the loop, the logger, `is_closed()`"""
+
+    def __init__(self, log: List[str], alive: bool) -> None:
+        self._loop = _FakeLoop(log)
+        self.logger = _Quiet()
+        self._alive = alive
+
+    def is_closed(self) -> bool:
+        return not self._alive
+
+
+class DestImpl(RelayImpl):
+    """the destination-side pair: the real `forward_connection` run to completion on a stand-in connection whose
+    destination connects at once, followed by what `SSHChannel._finish_open_request` does with the result (hand
+    the channel to the new session if the SSH connection is still there, drop the session otherwise)"""
+
+    def __init__(self, alive: bool, unix: bool = False) -> None:        # pylint: disable=super-init-not-called
+        from asyncssh.connection import SSHConnection
+        self.log = []
+        self.conn = FakeConn()
+        self.call = ForwardCall(self.log)
+        fake = _FakeSSHConn(self.log, alive)
+        coro = SSHConnection.forward_unix_connection(fake, '/dest') if unix else \
+            SSHConnection.forward_connection(fake, 'dest', 7)      # type: ignore
+        session: Any = None
+        try:
+            coro.send(None)
+            raise RuntimeError('forward_connection suspended on the stand-in loop')
+        except StopIteration as e:
+            session = e.value
+        except ChannelOpenError:
+            session = None
+        self.s = fake._loop.proto
+        self.ts = fake._loop.transport
+        self.phase = 'failed'
+        if session is not None and alive:
+            self.call.session = session
+            self.call.chan = FakeTransport('c', self.log)
+            session.connection_made(self.call.chan)
+            self.phase = 'linked'
+        self.eof = {'s': False, 'c': False}
+        self.gone = {'s': False, 'c': False}
+        self.opened = ' '.join(self.log)
+
+
+def gen_dest_case(rng: Any, alive: bool, unix: bool, n: int) -> Tuple[List[str], List[str]]:
+    """legal event sequence after the open; returns (tokens, impl outputs with the open's calls first)"""
+    impl = DestImpl(alive, unix)
+    toks, outs = gen_relay_seq(rng, impl, n, True)
+    return toks, [impl.opened] + outs
